@@ -101,3 +101,231 @@ def eval_1d_vector(rng, tier):
     n = int(rng.integers(0, 6))
     return dict(x=np.array([_point(rng, breaks) for _ in range(n)]), knots=knots, degree=degree,
                 coeffs=rng.standard_normal(nb), y=rng.standard_normal(n + int(rng.integers(0, 2))), der=int(rng.integers(0, 2)))
+
+
+# ---- uniform cubic ---------------------------------------------------------
+
+def _cu_space(rng):
+    ncells = int(rng.integers(1, 12))
+    xmin = float(rng.uniform(-3, 3))
+    k = rng.integers(0, 3)
+    if k == 0:
+        xmax = xmin + float(rng.uniform(0.5, 7))
+    elif k == 1:
+        xmin, xmax = 0.0, 2 * np.pi
+    else:
+        xmin, xmax = -1.0, 1.0
+    br = np.linspace(xmin, xmax, ncells + 1)
+    dx = br[1] - br[0]          # as BSplines.__init__ computes it (knots[degree+1]-knots[degree])
+    return np.array([br[0], br[-1], dx, ncells]), br
+
+
+def _cu_point(rng, br):
+    k = rng.integers(0, 8)
+    if k == 0:
+        return float(br[0])
+    if k == 1:
+        return float(br[-1])
+    if k == 2:
+        return float(br[rng.integers(0, len(br))])
+    if k in (3, 4):
+        # a few ulps inside a break point / the right end
+        b = float(br[-1]) if k == 3 else float(br[rng.integers(1, len(br))])
+        for _ in range(int(rng.integers(1, 4))):
+            b = np.nextafter(b, br[0])
+        return float(max(b, br[0]))
+    return float(rng.uniform(br[0], br[-1]))
+
+
+def cu_find_span(rng, tier):
+    kts, br = _cu_space(rng)
+    return dict(xmin=float(kts[0]), xmax=float(kts[1]), dx=float(kts[2]), x=_cu_point(rng, br), ncells=int(kts[3]))
+
+
+def cu_basis(rng, tier):
+    return dict(span=int(rng.integers(3, 12)), offset=float(rng.choice([0.0, 1.0, rng.uniform(0, 1)])),
+                values=rng.standard_normal(4 + int(rng.integers(0, 2))))
+
+
+def cu_basis_der(rng, tier):
+    d = cu_basis(rng, tier)
+    d['ders'] = d.pop('values')
+    d['dx'] = float(rng.uniform(0.1, 2))
+    return d
+
+
+def cu_eval_1d_scalar(rng, tier):
+    kts, br = _cu_space(rng)
+    return dict(x=_cu_point(rng, br), knots=kts, degree=3, coeffs=rng.standard_normal(int(kts[3]) + 3), der=int(rng.integers(0, 2)))
+
+
+def cu_eval_1d_vector(rng, tier):
+    kts, br = _cu_space(rng)
+    n = int(rng.integers(0, 6))
+    return dict(x=np.array([_cu_point(rng, br) for _ in range(n)]), knots=kts, degree=3,
+                coeffs=rng.standard_normal(int(kts[3]) + 3), y=rng.standard_normal(n + int(rng.integers(0, 2))),
+                der=int(rng.integers(0, 2)))
+
+
+def _cu2(rng):
+    k1, b1 = _cu_space(rng)
+    k2, b2 = _cu_space(rng)
+    return k1, b1, k2, b2, rng.standard_normal((int(k1[3]) + 3, int(k2[3]) + 3))
+
+
+def cu_eval_2d_scalar(rng, tier):
+    k1, b1, k2, b2, c = _cu2(rng)
+    return dict(x=_cu_point(rng, b1), y=_cu_point(rng, b2), kts1=k1, deg1=3, kts2=k2, deg2=3, coeffs=c,
+                der1=int(rng.integers(0, 2)), der2=int(rng.integers(0, 2)))
+
+
+def cu_eval_2d_cross(rng, tier):
+    k1, b1, k2, b2, c = _cu2(rng)
+    n, m = int(rng.integers(0, 4)), int(rng.integers(0, 4))
+    return dict(X=np.array([_cu_point(rng, b1) for _ in range(n)]), Y=np.array([_cu_point(rng, b2) for _ in range(m)]),
+                kts1=k1, deg1=3, kts2=k2, deg2=3, coeffs=c, z=rng.standard_normal((n + int(rng.integers(0, 2)), m)),
+                der1=int(rng.integers(0, 2)), der2=int(rng.integers(0, 2)))
+
+
+def cu_eval_2d_vector(rng, tier):
+    k1, b1, k2, b2, c = _cu2(rng)
+    n = int(rng.integers(0, 5))
+    return dict(x=np.array([_cu_point(rng, b1) for _ in range(n)]), y=np.array([_cu_point(rng, b2) for _ in range(n)]),
+                kts1=k1, deg1=3, kts2=k2, deg2=3, coeffs=c, z=rng.standard_normal(n),
+                der1=int(rng.integers(0, 2)), der2=int(rng.integers(0, 2)))
+
+
+# ---- general 2-D ------------------------------------------------------------
+
+def _nu2(rng, tier):
+    d1, n1, p1, b1, k1 = _spline_space(rng, tier, 4)
+    d2, n2, p2, b2, k2 = _spline_space(rng, tier, 4)
+    return d1, b1, k1, d2, b2, k2, rng.standard_normal((len(k1) - d1 - 1, len(k2) - d2 - 1))
+
+
+def eval_2d_scalar(rng, tier):
+    d1, b1, k1, d2, b2, k2, c = _nu2(rng, tier)
+    return dict(x=_point(rng, b1), y=_point(rng, b2), kts1=k1, deg1=d1, kts2=k2, deg2=d2, coeffs=c,
+                der1=int(rng.integers(0, 2)), der2=int(rng.integers(0, 2)))
+
+
+def eval_2d_cross(rng, tier):
+    d1, b1, k1, d2, b2, k2, c = _nu2(rng, tier)
+    n, m = int(rng.integers(0, 4)), int(rng.integers(0, 4))
+    return dict(X=np.array([_point(rng, b1) for _ in range(n)]), Y=np.array([_point(rng, b2) for _ in range(m)]),
+                kts1=k1, deg1=d1, kts2=k2, deg2=d2, coeffs=c, z=rng.standard_normal((n, m + int(rng.integers(0, 2)))),
+                der1=int(rng.integers(0, 2)), der2=int(rng.integers(0, 2)))
+
+
+def eval_2d_vector(rng, tier):
+    d1, b1, k1, d2, b2, k2, c = _nu2(rng, tier)
+    n = int(rng.integers(0, 5))
+    return dict(x=np.array([_point(rng, b1) for _ in range(n)]), y=np.array([_point(rng, b2) for _ in range(n)]),
+                kts1=k1, deg1=d1, kts2=k2, deg2=d2, coeffs=c, z=rng.standard_normal(n),
+                der1=int(rng.integers(0, 2)), der2=int(rng.integers(0, 2)))
+
+
+# ---- advection kernels -----------------------------------------------------
+
+NU = 'pygyro.splines.spline_eval_funcs'
+CU = 'pygyro.splines.cubic_uniform_spline_eval_funcs'
+
+
+def _fref(mod, name):
+    return {'__fun__': name, '__module__': mod}
+
+
+def _spl_env(cu):
+    """Run-time meaning of the abstract names of the advection contracts for the evaluator family in use."""
+    import importlib
+    m = importlib.import_module(CU if cu else NU)
+    pre = 'cu_' if cu else 'nu_'
+    e1, e2 = getattr(m, pre + 'eval_spline_1d_scalar'), getattr(m, pre + 'eval_spline_2d_scalar')
+    return {
+        'S1': lambda x, knots, degree, coeffs, der: e1(float(x), knots, int(degree), coeffs, int(der)),
+        'S2': lambda x, y, k1, d1, k2, d2, c, der1, der2: e2(float(x), float(y), k1, int(d1), k2, int(d2), c, int(der1), int(der2)),
+        'spl1_ok': lambda knots, degree, coeffs: True,
+        'spl2_ok': lambda *a: True,
+        'spl1_lo': (lambda knots, degree: knots[0]) if cu else (lambda knots, degree: knots[degree]),
+        'spl1_hi': (lambda knots, degree: knots[1]) if cu else (lambda knots, degree: knots[len(knots) - 1 - degree]),
+    }
+
+
+def _space_on(rng, a, b, cu, periodic=None):
+    if cu:
+        ncells = int(rng.integers(3, 10))
+        br = np.linspace(a, b, ncells + 1)
+        return np.array([br[0], br[-1], br[1] - br[0], ncells]), 3, rng.standard_normal(ncells + 3), br
+    degree = int(rng.integers(1, 6))
+    ncells = int(rng.integers(degree + 1, 10))
+    if rng.integers(0, 2):
+        br = np.linspace(a, b, ncells + 1)
+    else:
+        br = np.concatenate([[0.0], np.cumsum(rng.uniform(0.3, 1.0, ncells))])
+        br = a + (b - a) * br / br[-1]
+        br[-1] = b
+    per = bool(rng.integers(0, 2)) if periodic is None else periodic
+    knots = make_knots(br, degree, per)
+    return knots, degree, rng.standard_normal(len(knots) - degree - 1), br
+
+
+PHYS = dict(CN0=0.86, kN0=0.055, deltaRN0=4.0, rp=14.5, CTi=1.0, kTi=0.27586, deltaRTi=1.45)
+
+
+def _vpar(rng, tier, general):
+    cu = bool(rng.integers(0, 2))
+    vMin = float(rng.uniform(-6, -1))
+    vMax = float(rng.uniform(1, 6))
+    kts, deg, coeffs, br = _space_on(rng, vMin, vMax, cu)
+    n = int(rng.integers(1, 8))
+    w = vMax - vMin
+    v = np.array([rng.choice([rng.uniform(vMin, vMax), vMin, vMax, rng.uniform(vMin - 4 * w, vMax + 4 * w),
+                              vMin - rng.integers(1, 4) * w, vMax + rng.integers(1, 4) * w * 0.5]) for _ in range(n)], dtype=float)
+    d = dict(f=rng.standard_normal(n + int(rng.integers(0, 2))), vPts=v, rPos=float(rng.uniform(0.5, 14)), vMin=vMin, vMax=vMax,
+             kts=kts, deg=deg, coeffs=coeffs, bound=int(rng.integers(0, 3)))
+    d.update(PHYS)
+    if general:
+        d['eval_spline_1d_scalar'] = _fref(CU if cu else NU, ('cu_' if cu else 'nu_') + 'eval_spline_1d_scalar')
+    else:
+        d['cubic_uniform_splines'] = cu
+    d['__env__'] = _spl_env(cu)
+    return d
+
+
+def vpar_general(rng, tier):
+    return _vpar(rng, tier, True)
+
+
+def vpar_dispatch(rng, tier):
+    return _vpar(rng, tier, False)
+
+
+def flux_adv(rng, tier):
+    nq, nr, nk = int(rng.integers(0, 5)), int(rng.integers(0, 5)), int(rng.integers(1, 7))
+    return dict(nq=nq, nr=nr, f=rng.standard_normal((nq + int(rng.integers(0, 2)), nr + int(rng.integers(0, 2)))),
+                coeffs=rng.standard_normal(nk), vals=rng.standard_normal((nr, nq, nk)))
+
+
+def _lagr(rng, tier, general):
+    cu = bool(rng.integers(0, 2))
+    kts, deg, coeffs, br = _space_on(rng, 0.0, 2 * np.pi, cu, periodic=True)
+    nz, nq, ns = int(rng.integers(1, 9)), int(rng.integers(0, 5)), int(rng.integers(0, 7))
+    d = dict(i=int(rng.integers(0, nz)), shifts=rng.integers(-3 * nz, 3 * nz, ns).astype(int),
+             vals=rng.standard_normal((nz, nq, ns + int(rng.integers(0, 2)))), qVals=rng.uniform(0, 2 * np.pi, nq),
+             thetaShifts=rng.uniform(-20, 20, ns), kts=kts, deg=deg, coeffs=coeffs)
+    if general:
+        pre = 'cu_' if cu else 'nu_'
+        d['eval_spline_1d_vector'] = _fref(CU if cu else NU, pre + 'eval_spline_1d_vector')
+        d['eval_spline_1d_scalar'] = _fref(CU if cu else NU, pre + 'eval_spline_1d_scalar')
+    else:
+        d['cubic_uniform_splines'] = cu
+    d['__env__'] = _spl_env(cu)
+    return d
+
+
+def lagr_general(rng, tier):
+    return _lagr(rng, tier, True)
+
+
+def lagr_dispatch(rng, tier):
+    return _lagr(rng, tier, False)
